@@ -39,16 +39,16 @@ def handle (ws : List String) : String :=
   | ["circ", m, depth, ra, dec, r] =>
     match m.toNat?, parseDepth? depth, parseFloat? ra, parseFloat? dec, parseFloat? r with
     | some m, some depth, some ra, some dec, some r =>
-      let c := addCircleCall Gen.C09.sky2angTheta m depth ra dec r
-      s!"{c.depth} {c.nside} {showVec c.vec} {showFloat c.radius} {showB c.inclusive} {showB c.nest}"
+      let c := addCircleCall Gen.C09.sky2angTheta Gen.C09.discFact m depth ra dec r
+      s!"{c.depth} {c.nside} {showVec c.vec} {showFloat c.radius} {showB c.inclusive} {showB c.nest} {c.fact}"
     | _, _, _, _, _ => "bad-op"
   | "poly" :: m :: depth :: rest =>
     match m.toNat?, parseDepth? depth, rest.mapM parseFloat? with
     | some m, some depth, some l =>
       if l.length % 2 ≠ 0 then "bad-op" else
-      match addPolyCall Gen.C09.sky2angTheta m depth (pairsF l) with
+      match addPolyCall Gen.C09.sky2angTheta Gen.C09.polyFact m depth (pairsF l) with
       | none => "err assertion"
-      | some c => s!"{c.depth} {c.nside} {showB c.inclusive} {showB c.nest} " ++ " ".intercalate (c.verts.map showVec)
+      | some c => s!"{c.depth} {c.nside} {showB c.inclusive} {showB c.nest} {c.fact} " ++ " ".intercalate (c.verts.map showVec)
     | _, _, _ => "bad-op"
   | ["within", m, degin, ra, dec] =>
     match m.toNat?, parseBool? degin, parseFloat? ra, parseFloat? dec with
@@ -57,6 +57,7 @@ def handle (ws : List String) : String :=
       | none => "masked"
       | some c => s!"{c.nside} {showFloat c.theta} {showFloat c.phi} {showB c.nest}"
     | _, _, _, _ => "bad-op"
+  | ["facts"] => s!"{Gen.C09.discFact} {Gen.C09.polyFact}"
   | ["sep", a, b, c, d] =>
     match parseFloat? a, parseFloat? b, parseFloat? c, parseFloat? d with
     | some a, some b, some c, some d => showFloat (sepHav a b c d)
